@@ -14,7 +14,13 @@
 (***************************************************************************)
 EXTENDS Integers, Sequences, FiniteSets, TLC
 
-CONSTANTS Scenarios      \* set of scenarios explored from Init
+CONSTANTS Scenarios,     \* set of scenarios explored from Init
+          MaxRuns,       \* 1: one run of mlr -I; 2: after a run has ended (killed, aborted, failed or succeeded) a SECOND
+                         \*    command is run on the same files - the retry after a crash - with whatever the first left
+                         \*    in the directories (stale temp files, a renamed file whose mode was not yet restored)
+          ReuseStaleTemp \* FALSE in the design (os.CreateTemp: a fresh, empty, exclusively created file). TRUE is a
+                         \*    design mutation used as a self-test: the temp file has a predictable name and is opened
+                         \*    without truncation, so a run inherits the bytes a killed run left in it
 
 (* A scenario is [files |-> Seq(file), prepipe |-> BOOLEAN]; a file is       *)
 (*   [kind |-> k, n |-> records the transformed file has (written before     *)
@@ -31,25 +37,43 @@ CONSTANTS Scenarios      \* set of scenarios explored from Init
 (*                    file exists                                            *)
 (*        "tempfail"  the temp file cannot be created (directory unwritable) *)
 (* prepipe: the command line has --prepipe: every file is refused            *)
+(*                                                                         *)
+(* The second command (run 2) is a different transformation T2 whose output  *)
+(* is SHORTER than the first one's: it reads every record (so the files that *)
+(* made the first command fail make it fail in the same way), prints nothing *)
+(* per record and one record at the end of a non-empty file; T2 of a file    *)
+(* transformed by the first command equals T2 of the original ("new2").     *)
 
 VARIABLES sc,        \* the scenario
           cur,       \* index of the file being processed (0 before the first)
           pc,        \* where processFileInPlace is
-          content,   \* per file: "orig" or "new"  (the only values the protocol can produce)
+          content,   \* per file: "orig", "new" (transformed by run 1) or "new2" (by run 2): the only values the
+                     \* protocol can produce; "mixed" (new bytes followed by stale ones) only under ReuseStaleTemp
           mode,      \* per file: "orig" or "temp" (the temp file's 0600)
+          run,       \* 1 or 2
+          start,     \* [content, mode, leftovers] as they were when the current run started
+          staleLen,  \* per file: records in the temp file a killed/aborted run left behind for it (0: none or empty)
+          dirty,     \* records of a stale temp file inherited by the open temp file (always 0 in the design)
           temp,      \* "none", "open" (exists, partially written), "complete"
           written,   \* records handed to the temp file's buffer
           alive, exit,
           leftovers, \* temp files left behind in the directory
           last, cnt  \* history: last hook site passed, occurrences per site (names the crash point)
 
-vars == <<sc, cur, pc, content, mode, temp, written, alive, exit, leftovers, last, cnt>>
+vars == <<sc, cur, pc, content, mode, temp, written, alive, exit, leftovers, last, cnt, run, start, staleLen, dirty>>
+rvars == <<run, start, staleLen, dirty>>
 
 Sites == {"begin", "errReturn", "tempCreated", "wrapped", "wrote", "flushed", "streamDone", "wrapperClosed",
           "closed", "renamed", "chmodded"}
 
 F == Len(sc.files)
 File == sc.files[cur]
+Target == IF run = 1 THEN "new" ELSE "new2"
+\* records the current command writes for the current file: at least RecsMin, at most RecsMax. (The second command
+\* prints its one record at end of stream; after malformed input the end block may still run before the error is
+\* reported, so a failing file of the second run may or may not get that record into its temp file.)
+RecsMin == IF run = 1 THEN File.n ELSE IF File.kind = "ok" /\ File.n > 0 THEN 1 ELSE 0
+RecsMax == IF run = 1 THEN File.n ELSE IF File.kind \in {"ok", "streamerr"} /\ File.n > 0 THEN 1 ELSE 0
 
 InitWith(s) ==
   /\ sc = s /\ cur = 0 /\ pc = "idle"
@@ -57,6 +81,8 @@ InitWith(s) ==
   /\ mode = [f \in 1..Len(s.files) |-> "orig"]
   /\ temp = "none" /\ written = 0 /\ alive = TRUE /\ exit = "none" /\ leftovers = 0
   /\ last = "none" /\ cnt = [x \in Sites |-> 0]
+  /\ run = 1 /\ staleLen = [f \in 1..Len(s.files) |-> 0] /\ dirty = 0
+  /\ start = [content |-> [f \in 1..Len(s.files) |-> "orig"], mode |-> [f \in 1..Len(s.files) |-> "orig"], leftovers |-> 0]
 
 Init == \E s \in Scenarios : InitWith(s)
 
@@ -65,7 +91,7 @@ Hook(site) == last' = site /\ cnt' = [cnt EXCEPT ![site] = @ + 1]
 \* inplace.begin(name)
 Begin == /\ alive /\ pc = "idle" /\ cur < F
          /\ cur' = cur + 1 /\ pc' = "begun" /\ written' = 0 /\ Hook("begin")
-         /\ UNCHANGED <<sc, content, mode, temp, alive, exit, leftovers>>
+         /\ UNCHANGED <<sc, content, mode, temp, alive, exit, leftovers, rvars>>
 
 ErrorExit == alive' = FALSE /\ exit' = "err"
 
@@ -73,69 +99,79 @@ ErrorExit == alive' = FALSE /\ exit' = "err"
 ErrEarly == /\ alive /\ pc = "begun"
             /\ (File.kind \in {"missing", "tempfail"} \/ sc.prepipe)
             /\ ErrorExit /\ pc' = "returned" /\ Hook("errReturn")
-            /\ UNCHANGED <<sc, cur, content, mode, temp, written, leftovers>>
+            /\ UNCHANGED <<sc, cur, content, mode, temp, written, leftovers, rvars>>
 \* inplace.tempCreated(name)
 TempCreated == /\ alive /\ pc = "begun" /\ File.kind \notin {"missing", "tempfail"} /\ ~sc.prepipe
                /\ temp' = "open" /\ pc' = "temp" /\ Hook("tempCreated")
-               /\ UNCHANGED <<sc, cur, content, mode, written, alive, exit, leftovers>>
+               /\ dirty' = IF ReuseStaleTemp THEN staleLen[cur] ELSE 0
+               /\ UNCHANGED <<sc, cur, content, mode, written, alive, exit, leftovers, run, start, staleLen>>
 \* inplace.errReturn("wrap"): the temp file is removed first
 ErrWrap == /\ alive /\ pc = "temp" /\ File.kind = "wrapfail"
            /\ temp' = "none" /\ ErrorExit /\ pc' = "returned" /\ Hook("errReturn")
-           /\ UNCHANGED <<sc, cur, content, mode, written, leftovers>>
+           /\ UNCHANGED <<sc, cur, content, mode, written, leftovers, rvars>>
 \* inplace.wrapped(isNew)
 Wrapped == /\ alive /\ pc = "temp" /\ File.kind # "wrapfail"
            /\ pc' = "stream" /\ Hook("wrapped")
-           /\ UNCHANGED <<sc, cur, content, mode, temp, written, alive, exit, leftovers>>
+           /\ UNCHANGED <<sc, cur, content, mode, temp, written, alive, exit, leftovers, rvars>>
 \* writer.wrote: one more record in the temp file's buffer
-Wrote == /\ alive /\ pc = "stream" /\ written < File.n
+Wrote == /\ alive /\ pc = "stream" /\ written < RecsMax
          /\ written' = written + 1 /\ Hook("wrote")
-         /\ UNCHANGED <<sc, cur, pc, content, mode, temp, alive, exit, leftovers>>
+         /\ UNCHANGED <<sc, cur, pc, content, mode, temp, alive, exit, leftovers, rvars>>
 \* main.return: the stream's final flush
-Flushed == /\ alive /\ pc = "stream" /\ (written = File.n \/ File.kind = "writefail") /\ File.kind # "abort"
+Flushed == /\ alive /\ pc = "stream" /\ (written >= RecsMin \/ File.kind = "writefail") /\ File.kind # "abort"
            /\ pc' = "flushed" /\ Hook("flushed")
-           /\ UNCHANGED <<sc, cur, content, mode, temp, written, alive, exit, leftovers>>
+           /\ UNCHANGED <<sc, cur, content, mode, temp, written, alive, exit, leftovers, rvars>>
 \* a verb exits the process inside the stream: no clean-up, no hook
 Abort == /\ alive /\ pc = "stream" /\ File.kind = "abort"     \* whatever has been written so far
          /\ alive' = FALSE /\ exit' = "abort" /\ leftovers' = leftovers + 1 /\ pc' = "aborted"
-         /\ UNCHANGED <<sc, cur, content, mode, temp, written, last, cnt>>
+         /\ staleLen' = [staleLen EXCEPT ![cur] = written]
+         /\ UNCHANGED <<sc, cur, content, mode, temp, written, last, cnt, run, start, dirty>>
 \* inplace.errReturn("stream"): the temp file is removed first
 ErrStream == /\ alive /\ pc = "flushed" /\ File.kind \in {"streamerr", "writefail"}
              /\ temp' = "none" /\ ErrorExit /\ pc' = "returned" /\ Hook("errReturn")
-             /\ UNCHANGED <<sc, cur, content, mode, written, leftovers>>
+             /\ UNCHANGED <<sc, cur, content, mode, written, leftovers, rvars>>
 \* inplace.streamDone
 StreamDone == /\ alive /\ pc = "flushed" /\ File.kind = "ok"
               /\ pc' = (IF File.gz THEN "streamed-gz" ELSE "streamed") /\ Hook("streamDone")
-              /\ UNCHANGED <<sc, cur, content, mode, temp, written, alive, exit, leftovers>>
+              /\ UNCHANGED <<sc, cur, content, mode, temp, written, alive, exit, leftovers, rvars>>
 \* inplace.wrapperClosed (compressed inputs only)
 WrapperClosed == /\ alive /\ pc = "streamed-gz"
                  /\ pc' = "streamed" /\ Hook("wrapperClosed")
-                 /\ UNCHANGED <<sc, cur, content, mode, temp, written, alive, exit, leftovers>>
+                 /\ UNCHANGED <<sc, cur, content, mode, temp, written, alive, exit, leftovers, rvars>>
 \* inplace.closed
 Closed == /\ alive /\ pc = "streamed"
           /\ temp' = "complete" /\ pc' = "closed" /\ Hook("closed")
-          /\ UNCHANGED <<sc, cur, content, mode, written, alive, exit, leftovers>>
+          /\ UNCHANGED <<sc, cur, content, mode, written, alive, exit, leftovers, rvars>>
 \* inplace.renamed: the one step that changes a named file, atomically
 Renamed == /\ alive /\ pc = "closed" /\ temp = "complete"
-           /\ content' = [content EXCEPT ![cur] = "new"] /\ mode' = [mode EXCEPT ![cur] = "temp"]
+           /\ content' = [content EXCEPT ![cur] = IF dirty > written THEN "mixed" ELSE Target] /\ mode' = [mode EXCEPT ![cur] = "temp"]
            /\ temp' = "none" /\ pc' = "renamed" /\ Hook("renamed")
-           /\ UNCHANGED <<sc, cur, written, alive, exit, leftovers>>
-\* inplace.chmodded
+           /\ UNCHANGED <<sc, cur, written, alive, exit, leftovers, rvars>>
+\* inplace.chmodded: the mode the named file had when this run looked at it
 Chmodded == /\ alive /\ pc = "renamed"
-            /\ mode' = [mode EXCEPT ![cur] = "orig"] /\ pc' = "idle" /\ Hook("chmodded")
-            /\ UNCHANGED <<sc, cur, content, temp, written, alive, exit, leftovers>>
+            /\ mode' = [mode EXCEPT ![cur] = start.mode[cur]] /\ pc' = "idle" /\ Hook("chmodded")
+            /\ UNCHANGED <<sc, cur, content, temp, written, alive, exit, leftovers, rvars>>
 \* all files done
 Finish == /\ alive /\ pc = "idle" /\ cur = F
           /\ alive' = FALSE /\ exit' = "ok" /\ pc' = "finished"
-          /\ UNCHANGED <<sc, cur, content, mode, temp, written, leftovers, last, cnt>>
+          /\ UNCHANGED <<sc, cur, content, mode, temp, written, leftovers, last, cnt, rvars>>
 \* the process is killed: nothing else changes; a temp file that exists stays
 Crash == /\ alive /\ last # "none"
          /\ alive' = FALSE /\ exit' = "killed"
          /\ leftovers' = IF temp # "none" THEN leftovers + 1 ELSE leftovers
-         /\ UNCHANGED <<sc, cur, pc, content, mode, temp, written, last, cnt>>
+         /\ staleLen' = IF temp # "none" THEN [staleLen EXCEPT ![cur] = written] ELSE staleLen
+         /\ UNCHANGED <<sc, cur, pc, content, mode, temp, written, last, cnt, run, start, dirty>>
+
+\* the second command is started on the same files: a new process, the directories as the first one left them
+Restart == /\ ~alive /\ run < MaxRuns
+           /\ run' = run + 1 /\ alive' = TRUE /\ exit' = "none" /\ cur' = 0 /\ pc' = "idle" /\ temp' = "none" /\ written' = 0
+           /\ last' = "none" /\ cnt' = [x \in Sites |-> 0] /\ dirty' = 0
+           /\ start' = [content |-> content, mode |-> mode, leftovers |-> leftovers]
+           /\ UNCHANGED <<sc, content, mode, leftovers, staleLen>>
 
 Step == Begin \/ ErrEarly \/ TempCreated \/ ErrWrap \/ Wrapped \/ Wrote \/ Flushed \/ Abort \/ ErrStream
         \/ StreamDone \/ WrapperClosed \/ Closed \/ Renamed \/ Chmodded \/ Finish
-Next == Step \/ Crash \/ (~alive /\ UNCHANGED vars)
+Next == Step \/ Crash \/ Restart \/ (~alive /\ UNCHANGED vars)
 Spec == Init /\ [][Next]_vars
 
 (***************************************************************************)
@@ -143,19 +179,21 @@ Spec == Init /\ [][Next]_vars
 (***************************************************************************)
 \* every named file is whole at every instant: the protocol has no state in which a named file is
 \* anything but its original or its transformed contents
-Atomic == \A f \in 1..F : content[f] \in {"orig", "new"}
+Atomic == \A f \in 1..F : content[f] \in {"orig", "new", "new2"}
 \* files after the current one are untouched; files before it are finished
-LaterUntouched == \A f \in 1..F : f > cur => content[f] = "orig" /\ mode[f] = "orig"
-EarlierDone == \A f \in 1..F : f < cur => content[f] = "new" /\ mode[f] = "orig"
+LaterUntouched == \A f \in 1..F : f > cur => content[f] = start.content[f] /\ mode[f] = start.mode[f]
+EarlierDone == \A f \in 1..F : f < cur => content[f] = Target /\ mode[f] = start.mode[f]
 \* a failure reported through the normal error path leaves no temporary file, and leaves the
 \* failing file as it was
-NoTempAfterErrReturn == exit = "err" => temp = "none" /\ leftovers = 0 /\ content[cur] = "orig" /\ mode[cur] = "orig"
+NoTempAfterErrReturn == exit = "err" => temp = "none" /\ leftovers = start.leftovers /\ content[cur] = start.content[cur] /\ mode[cur] = start.mode[cur]
 \* success: every file transformed, modes restored, nothing left behind
-SuccessMeansAll == exit = "ok" => (\A f \in 1..F : content[f] = "new" /\ mode[f] = "orig") /\ temp = "none" /\ leftovers = 0
+SuccessMeansAll == exit = "ok" => (\A f \in 1..F : content[f] = Target /\ mode[f] = start.mode[f]) /\ temp = "none" /\ leftovers = start.leftovers
 \* refusal (prepipe) and the other early failures happen before anything is modified or created
-RefusedBeforeModify == (sc.prepipe /\ cur >= 1) => (\A f \in 1..F : content[f] = "orig") /\ temp = "none"
+RefusedBeforeModify == (sc.prepipe /\ cur >= 1) => (\A f \in 1..F : content[f] = start.content[f]) /\ temp = "none"
 \* a file is replaced only by a complete, closed temp file
 RenameOnlyComplete == [][Renamed => temp = "complete"]_vars
 \* only a crash or an abort can leave a temp file behind
-LeftoverOnlyByCrash == leftovers > 0 => exit \in {"killed", "abort"}
+LeftoverOnlyByCrash == leftovers > start.leftovers => exit \in {"killed", "abort"}
+\* a run never inherits anything from a temp file left by an earlier one
+FreshTemp == dirty = 0
 =============================================================================
